@@ -1,0 +1,239 @@
+// This Source Code Form is subject to the terms of the Mozilla Public
+// License, v. 2.0. If a copy of the MPL was not distributed with this
+// file, You can obtain one at http://mozilla.org/MPL/2.0/.
+//
+// Copyright (c) DUSK NETWORK. All rights reserved.
+
+//! Verification hooks. Compiled only with `--cfg dusk_plonk_verif`; without
+//! that flag nothing in this module exists and the crate is unchanged.
+//!
+//! The hooks are cooperative fault points and read-only observers for an
+//! external deterministic simulator:
+//!
+//! * a witness-allocation hook that lets the simulator corrupt the value being
+//!   stored at allocation instant `k` (everything computed afterwards proceeds
+//!   honestly from the corrupted value),
+//! * a `force` switch that makes the prover skip its unsatisfied-circuit check
+//!   (a faulty / Byzantine prover host),
+//! * a read-only snapshot of a composer's layout and witness table,
+//! * a constructor for raw rows with arbitrary internal selectors,
+//! * thin wrappers over the crate-private FFT / Lagrange / barycentric kernels.
+
+use alloc::boxed::Box;
+use alloc::vec::Vec;
+#[cfg(feature = "std")]
+use core::cell::{Cell, RefCell};
+
+use dusk_bls12_381::BlsScalar;
+
+use crate::composer::{Composer, Constraint, Selector};
+use crate::error::Error;
+use crate::fft::EvaluationDomain;
+
+/// Callback invoked for every witness allocation with the allocation instant
+/// (index of the witness about to be stored) and its honest value; returns the
+/// value that is actually stored.
+pub type WitnessFault = Box<dyn FnMut(usize, BlsScalar) -> BlsScalar>;
+
+#[cfg(feature = "std")]
+std::thread_local! {
+    static WITNESS_FAULT: RefCell<Option<WitnessFault>> = const { RefCell::new(None) };
+    static FORCE: Cell<bool> = const { Cell::new(false) };
+}
+
+/// Install (or clear) the witness-allocation fault callback of this thread.
+#[cfg(feature = "std")]
+pub fn set_witness_fault(fault: Option<WitnessFault>) {
+    WITNESS_FAULT.with(|f| *f.borrow_mut() = fault);
+}
+
+#[cfg(feature = "std")]
+pub(crate) fn witness_fault(index: usize, value: BlsScalar) -> BlsScalar {
+    WITNESS_FAULT.with(|f| match f.borrow_mut().as_mut() {
+        Some(fault) => fault(index, value),
+        None => value,
+    })
+}
+
+#[cfg(not(feature = "std"))]
+pub(crate) fn witness_fault(_index: usize, value: BlsScalar) -> BlsScalar {
+    value
+}
+
+/// Make the prover of this thread skip its unsatisfied-circuit check and keep
+/// only the low `4n + 7` quotient coefficients.
+#[cfg(feature = "std")]
+pub fn set_force(on: bool) {
+    FORCE.with(|f| f.set(on));
+}
+
+#[cfg(feature = "std")]
+pub(crate) fn force() -> bool {
+    FORCE.with(|f| f.get())
+}
+
+#[cfg(not(feature = "std"))]
+pub(crate) fn force() -> bool {
+    false
+}
+
+/// Read-only copy of a composer's emitted layout and witness table.
+#[derive(Debug, Clone, PartialEq, Eq)]
+pub struct Snapshot {
+    /// Per gate: `q_m, q_l, q_r, q_o, q_f, q_c, q_arith, q_range, q_logic,
+    /// q_fixed_group_add, q_variable_group_add`.
+    pub selectors: Vec<[BlsScalar; 11]>,
+    /// Per gate: witness indices wired to `a, b, c, d`.
+    pub wires: Vec<[usize; 4]>,
+    /// Witness values.
+    pub witnesses: Vec<BlsScalar>,
+    /// Public-input rows (sorted) with their values.
+    pub public_inputs: Vec<(usize, BlsScalar)>,
+}
+
+impl Composer {
+    /// Snapshot of the gates, wiring, witness values and public inputs.
+    pub fn verif_snapshot(&self) -> Snapshot {
+        let selectors = self
+            .constraints
+            .iter()
+            .map(|g| {
+                [
+                    g.q_m,
+                    g.q_l,
+                    g.q_r,
+                    g.q_o,
+                    g.q_f,
+                    g.q_c,
+                    g.q_arith,
+                    g.q_range,
+                    g.q_logic,
+                    g.q_fixed_group_add,
+                    g.q_variable_group_add,
+                ]
+            })
+            .collect();
+        let wires = self
+            .constraints
+            .iter()
+            .map(|g| [g.a.index(), g.b.index(), g.c.index(), g.d.index()])
+            .collect();
+        let mut public_inputs: Vec<(usize, BlsScalar)> =
+            self.public_inputs.iter().map(|(i, v)| (*i, *v)).collect();
+        public_inputs.sort_by_key(|(i, _)| *i);
+
+        Snapshot {
+            selectors,
+            wires,
+            witnesses: self.witnesses.clone(),
+            public_inputs,
+        }
+    }
+}
+
+impl Constraint {
+    /// Set the five internal selectors `q_arith, q_range, q_logic,
+    /// q_fixed_group_add, q_variable_group_add` of a constraint. Appended
+    /// with [`Composer::append_custom_gate`] the row is emitted as is.
+    pub fn verif_raw(self, internal: [BlsScalar; 5]) -> Self {
+        self.set(Selector::Arithmetic, internal[0])
+            .set(Selector::Range, internal[1])
+            .set(Selector::Logic, internal[2])
+            .set(Selector::GroupAddFixedBase, internal[3])
+            .set(Selector::GroupAddVariableBase, internal[4])
+    }
+}
+
+/// Thin wrappers over the crate-private evaluation-domain kernels.
+pub mod kernels {
+    use super::*;
+
+    /// Size of the domain created for `num_coeffs` coefficients.
+    pub fn domain_size(num_coeffs: usize) -> Result<usize, Error> {
+        Ok(EvaluationDomain::new(num_coeffs)?.size())
+    }
+
+    /// Generator of the domain created for `num_coeffs` coefficients.
+    pub fn domain_generator(num_coeffs: usize) -> Result<BlsScalar, Error> {
+        Ok(EvaluationDomain::new(num_coeffs)?.group_gen)
+    }
+
+    /// `EvaluationDomain::fft`
+    pub fn fft(
+        num_coeffs: usize,
+        values: &[BlsScalar],
+    ) -> Result<Vec<BlsScalar>, Error> {
+        Ok(EvaluationDomain::new(num_coeffs)?.fft(values))
+    }
+
+    /// `EvaluationDomain::ifft`
+    pub fn ifft(
+        num_coeffs: usize,
+        values: &[BlsScalar],
+    ) -> Result<Vec<BlsScalar>, Error> {
+        Ok(EvaluationDomain::new(num_coeffs)?.ifft(values))
+    }
+
+    /// `EvaluationDomain::coset_fft`
+    pub fn coset_fft(
+        num_coeffs: usize,
+        values: &[BlsScalar],
+    ) -> Result<Vec<BlsScalar>, Error> {
+        Ok(EvaluationDomain::new(num_coeffs)?.coset_fft(values))
+    }
+
+    /// `EvaluationDomain::coset_ifft`
+    pub fn coset_ifft(
+        num_coeffs: usize,
+        values: &[BlsScalar],
+    ) -> Result<Vec<BlsScalar>, Error> {
+        Ok(EvaluationDomain::new(num_coeffs)?.coset_ifft(values))
+    }
+
+    /// `EvaluationDomain::evaluate_all_lagrange_coefficients`
+    pub fn lagrange_coefficients(
+        num_coeffs: usize,
+        tau: BlsScalar,
+    ) -> Result<Vec<BlsScalar>, Error> {
+        Ok(EvaluationDomain::new(num_coeffs)?
+            .evaluate_all_lagrange_coefficients(tau))
+    }
+
+    /// `EvaluationDomain::evaluate_vanishing_polynomial`
+    pub fn vanishing(
+        num_coeffs: usize,
+        tau: &BlsScalar,
+    ) -> Result<BlsScalar, Error> {
+        Ok(EvaluationDomain::new(num_coeffs)?
+            .evaluate_vanishing_polynomial(tau))
+    }
+
+    /// `compute_barycentric_eval`
+    pub fn barycentric_eval(
+        num_coeffs: usize,
+        evaluations: &[BlsScalar],
+        point: &BlsScalar,
+    ) -> Result<BlsScalar, Error> {
+        let domain = EvaluationDomain::new(num_coeffs)?;
+        Ok(crate::proof_system::proof::alloc::compute_barycentric_eval(
+            evaluations,
+            point,
+            &domain,
+        ))
+    }
+
+    /// `EvaluationDomain::compute_vanishing_poly_over_coset`
+    pub fn vanishing_over_coset(
+        num_coeffs: usize,
+        poly_degree: u64,
+    ) -> Result<Vec<BlsScalar>, Error> {
+        let domain = EvaluationDomain::new(num_coeffs)?;
+        if poly_degree >= domain.size() as u64 {
+            return Err(Error::InvalidEvalDomainSize {
+                log_size_of_group: domain.log_size_of_group,
+                adacity: dusk_bls12_381::TWO_ADACITY,
+            });
+        }
+        Ok(domain.compute_vanishing_poly_over_coset(poly_degree).evals)
+    }
+}
